@@ -436,13 +436,13 @@ impl Monitor for C16 {
         "C16"
     }
     fn plan(&self, cfg: &Cfg) -> u64 {
-        (25 * ns(cfg).len()) as u64 * cfg.tier.pick(6, 16) + LARGE_VIEWS.len() as u64 * cfg.tier.pick(1, 4) + 48 * cfg.tier.pick(1, 4)
+        (25 * ns(cfg).len()) as u64 * cfg.tier.pick(6, 48) + LARGE_VIEWS.len() as u64 * cfg.tier.pick(1, 12) + 48 * cfg.tier.pick(1, 12)
     }
     fn trial(&self, cfg: &Cfg, idx: u64, out: &mut TrialOut) {
         let nl = ns(cfg);
         let mut rng = Rng::for_trial(cfg.seed, "C16", idx);
-        let main = (25 * nl.len()) as u64 * cfg.tier.pick(6, 16);
-        let large = LARGE_VIEWS.len() as u64 * cfg.tier.pick(1, 4);
+        let main = (25 * nl.len()) as u64 * cfg.tier.pick(6, 48);
+        let large = LARGE_VIEWS.len() as u64 * cfg.tier.pick(1, 12);
         if idx >= main + large {
             // the two views that take a moving average: 2 hosts x 3 smoothers x (drift, flat x 3) x (f64, f32)
             use crate::dynview::MaK;
@@ -514,14 +514,14 @@ impl Monitor for C16 {
         let n = super::jitter_n(cfg, n, 2, 50, &mut rng);
         let rep = idx / (25 * nl.len() as u64);
         let v = view(vi, n, &mut rng);
-        // f32: repetitions 6, 7 of 16 in thorough; 4, 5 of 6 in quick
+        // f32: repetitions 6, 7 of every 8 in thorough; 4, 5 of 6 in quick
         let f32_run = if cfg.tier == Tier::Thorough { rep % 8 >= 6 } else { rep >= 4 };
         out.key(mix(hash_str(&format!("{:?}{}{}", v.kind, rep, f32_run)), rng.clone().next()));
         if rep % 2 == 0 {
             // drift clause
             let nice = rep % 4 == 0;
             let per_update = 1 + v.kind.n().unwrap_or(1) / 24; // O(N) views get shorter streams
-            let len = if f32_run { 10_000 } else { cfg.tier.pick(100_000usize, 1_000_000) / per_update / if v.recursive { 4 } else { 1 } };
+            let len = if f32_run { 10_000 } else { cfg.tier.pick(100_000usize, 1_000_000) / per_update / if v.recursive && cfg.tier == Tier::Quick { 4 } else { 1 } };
             let xs = three_decades(len, nice, &mut rng);
             if idx % 41 == 0 {
                 out.sample(format!("drift: {} on a three-decade stream of {} values ({}), 200 checkpoints + the last min(2N, 32) steps", Spec::leaf(v.kind).show(), len, if nice { "dyadic grid" } else { "grid of tenths" }));
